@@ -1,8 +1,58 @@
-(* C18 — socket ports deliver exactly the complete messages before a disconnect.  (theorems are added as they are proved) *)
-From Coq Require Import ZArith List Bool.
-Require Import Mido.Model.Base Mido.Model.Codec Mido.Model.Sockets.
+(* C18 — socket ports deliver exactly the complete messages before a disconnect. *)
+From Coq Require Import ZArith List Bool Lia.
+Require Import Mido.Model.Base Mido.Model.Codec Mido.Model.Tokenizer Mido.Model.Parser Mido.Model.Strings Mido.Model.Sockets.
+Require Import Mido.Proofs.SocketsProofs.
 Import ListNotations.
 Open Scope Z_scope.
-Example C18_nonvacuous : format_address true [104] 80 = [104; 58; 56; 48] /\ parse_address [104; 58; 56; 48] = Ok ([104], 80).
-Proof. vm_compute. split; reflexivity. Qed.
-Print Assumptions C18_nonvacuous.
+
+(* for EVERY list of valid messages, EVERY cut offset in their byte stream, EVERY segmentation of the bytes before the cut (any number of
+   segments of any sizes, empty ones included) and whether the peer then closes (end of stream) or dies (connection reset): iterating the
+   receiving socket port yields exactly the messages whose encodings lie completely before the cut, in order, ends without an exception,
+   and leaves the port closed with its connection released and nothing queued.  (n and fuel only say that the iteration is allowed to run
+   long enough: more steps than messages, more polling rounds than segments.) *)
+Theorem C18_cut : forall ms cut segs last n fuel, Forall (fun m => valid m = true) ms ->
+  concat segs = firstn cut (concat (map enc ms)) -> (last = SEof \/ last = SDied) -> (length ms < n)%nat -> (length segs < fuel)%nat ->
+  exists p', s_iterate current n fuel (new_sport (events_of segs last)) = (p', Ok (complete_prefix ms cut)) /\
+             s_closed p' = true /\ peer_sees_disconnect p' = true /\ s_queue p' = [].
+Proof. exact cut_stream. Qed.
+Print Assumptions C18_cut.
+(* the same fact at the level of the stream parser *)
+Theorem C18_parse_cut : forall ms cut, Forall (fun m => valid m = true) ms -> parse_all (firstn cut (concat (map enc ms))) = Ok (complete_prefix ms cut).
+Proof. exact parse_cut. Qed.
+Print Assumptions C18_parse_cut.
+(* closing a socket port releases the connection: the peer sees a disconnect *)
+Theorem C18_close : forall p, peer_sees_disconnect (s_close current p) = true \/ s_closed p = true.
+Proof. exact close_releases. Qed.
+Print Assumptions C18_close.
+(* formatting and parsing are mutually inverse *)
+Theorem C18_parse_format : forall host port, nosep 58 host -> 0 < port < 65536 -> parse_address (format_address true host port) = Ok (host, port).
+Proof. exact parse_format. Qed.
+Print Assumptions C18_parse_format.
+Theorem C18_format_parse : forall a host port, parse_address a = Ok (host, port) ->
+  nosep 58 host /\ 0 < port < 65536 /\ parse_address (format_address true host port) = Ok (host, port).
+Proof. exact format_parse. Qed.
+Print Assumptions C18_format_parse.
+(* a server port never waits in a non-blocking call, and a blocking call returns without waiting once any client has a message *)
+Theorem C18_server_nonblocking : forall fuel s, exists s' r, sv_receive current (S fuel) false s = (s', r) /\ sv_sleeps s' = sv_sleeps s.
+Proof. exact server_nonblocking. Qed.
+Print Assumptions C18_server_nonblocking.
+Theorem C18_server_prompt : forall fuel s got s1, sv_queue s = [] -> sv_dev_receive current (S fuel) s = (s1, Ok got) -> got <> [] ->
+  exists s' m, sv_receive current (S fuel) true s = (s', Ok (Some m)) /\ sv_sleeps s' = sv_sleeps s.
+Proof. exact server_blocking_prompt. Qed.
+Print Assumptions C18_server_prompt.
+(* the tree before the three repairs, refuted: no disconnect seen after close, OSError out of the iteration when the peer dies, no colon *)
+Theorem C18_legacy_close_refuted : peer_sees_disconnect (s_close legacy (new_sport [])) = false.
+Proof. exact legacy_close_refuted. Qed.
+Print Assumptions C18_legacy_close_refuted.
+Theorem C18_legacy_died_refuted : snd (s_iterate legacy 3 3 (new_sport [SByte 144; SByte 1; SByte 2; SDied])) = Raise OSError.
+Proof. exact legacy_died_refuted. Qed.
+Print Assumptions C18_legacy_died_refuted.
+Theorem C18_legacy_format_refuted : parse_address (format_address false [108; 111; 99; 97; 108; 104; 111; 115; 116] 8080) = Raise ValueError.
+Proof. exact legacy_format_refuted. Qed.
+Print Assumptions C18_legacy_format_refuted.
+(* the hypotheses are satisfiable: two messages, cut inside the second, three segments, the peer dies *)
+Example C18_nonvacuous :
+  let ms := [NoteOn 0 1 2; NoteOn 0 3 4] in
+  concat [[144]; [1; 2; 144]; [3]] = firstn 5 (concat (map enc ms)) /\ complete_prefix ms 5 = [NoteOn 0 1 2] /\
+  snd (s_iterate current 3 4 (new_sport (events_of [[144]; [1; 2; 144]; [3]] SDied))) = Ok [NoteOn 0 1 2].
+Proof. vm_compute. repeat split. Qed.
